@@ -1,5 +1,5 @@
 from shexer.io.graph.yielder.base_triples_yielder import BaseTriplesYielder
-from shexer.utils.uri import remove_corners, unprefixize_uri_mandatory
+from shexer.utils.uri import remove_corners, unprefixize_uri_mandatory, starts_with_a_scheme
 from shexer.utils.triple_yielders import tune_subj, tune_prop, tune_token
 import re
 
@@ -12,8 +12,6 @@ _RDF_TYPE_URI = "<http://www.w3.org/1999/02/22-rdf-syntax-ns#type>"
 _BOOLEANS = ["true", "false"]
 _INI_BASE_URIS = ["/", "#"]
 _CLOSURES = [",", ";", "."]
-_SCHEME_NON_INITIAL_CHARS = "0123456789+.-"
-_SCHEME_CHARS = "abcdefghijklmnopqrstuvwxyzABCDEFGHIJKLMNOPQRSTUVWXYZ" + _SCHEME_NON_INITIAL_CHARS
 _S = 0
 _P = 1
 _O = 2
@@ -371,22 +369,10 @@ class BigTtlTriplesYielder(BaseTriplesYielder):
             return cornered_element  # There is no base
         elif cornered_element[1] in _INI_BASE_URIS:
             return "<" + self._base + cornered_element[2:-1] + ">"
-        elif not self._starts_with_a_scheme(cornered_element[1:-1]):
+        elif not starts_with_a_scheme(cornered_element[1:-1]):
             return "<" + self._base + cornered_element[1:-1] + ">"
         else:
             return cornered_element  # Nothing to do with base
-
-    @staticmethod
-    def _starts_with_a_scheme(an_iri):
-        """
-        Absolute IRIs (http:, https:, urn:, ftp:, mailto:...) start with 'scheme:'. They are not relative to @base
-        """
-        for i in range(len(an_iri)):
-            if an_iri[i] == ":":
-                return i > 0
-            if an_iri[i] not in _SCHEME_CHARS or (i == 0 and an_iri[i] in _SCHEME_NON_INITIAL_CHARS):
-                return False
-        return False
 
     @property
     def yielded_triples(self):
